@@ -11,6 +11,7 @@ import (
 
 	"google.golang.org/grpc/codes"
 	"google.golang.org/grpc/status"
+	"google.golang.org/protobuf/proto"
 	"google.golang.org/protobuf/types/known/fieldmaskpb"
 	"pgregory.net/rapid"
 
@@ -43,12 +44,15 @@ type step struct {
 	Masked bool // UpdateMode: update mask ["normal","title"] instead of nil
 	Allow  bool // DeleteMode: allow missing
 	Via    int
+	// Extra: a further, harmless-looking caller option on Model API calls: DeleteMode gets an expected-check that accepts
+	// everything (a conditional delete), UpdateMode gets create-if-absent (an upsert)
+	Extra bool
 }
 
 var opNames = []string{"CreateMode", "AddMode", "UpdateMode", "DeleteMode", "SetActiveMode", "ChangeActiveMode", "ChangeToNormalMode"}
 
 func (s step) String() string {
-	return fmt.Sprintf("%s(mode#%d normal=%v masked=%v allowMissing=%v via=%s)", opNames[s.Op], s.Mode, s.Normal, s.Masked, s.Allow, []string{"model", "server"}[s.Via])
+	return fmt.Sprintf("%s(mode#%d normal=%v masked=%v allowMissing=%v extraOption=%v via=%s)", opNames[s.Op], s.Mode, s.Normal, s.Masked, s.Allow, s.Extra, []string{"model", "server"}[s.Via])
 }
 
 type world struct {
@@ -117,6 +121,11 @@ func (w *world) apply(s step) (string, error) {
 			if mask != nil {
 				opts = append(opts, resource.WithUpdateMask(mask))
 			}
+			if s.Extra && mask == nil {
+				// (with a mask that leaves the id out an upsert would create a mode without an id: not a case the
+				// statement speaks about)
+				opts = append(opts, resource.WithCreateIfAbsent())
+			}
 			_, err = w.m.UpdateMode(mode, opts...)
 		} else {
 			_, err = w.srv.UpdateMode(ctx, &electricpb.UpdateModeRequest{Name: "n", Mode: mode, UpdateMask: mask})
@@ -124,7 +133,11 @@ func (w *world) apply(s step) (string, error) {
 	case "DeleteMode":
 		id := w.id(s.Mode)
 		if s.Via == 0 {
-			err = w.m.DeleteMode(id, resource.WithAllowMissing(s.Allow))
+			dopts := []resource.WriteOption{resource.WithAllowMissing(s.Allow)}
+			if s.Extra {
+				dopts = append(dopts, resource.WithExpectedCheck(func(proto.Message) error { return nil }))
+			}
+			err = w.m.DeleteMode(id, dopts...)
 		} else {
 			_, err = w.srv.DeleteMode(ctx, &electricpb.DeleteModeRequest{Name: "n", Id: id, AllowMissing: s.Allow})
 		}
@@ -263,7 +276,24 @@ func modeIDs(modes []*traits.ElectricMode) []string {
 }
 
 func runSteps(steps []step) (nt bool, hist []string, err error) {
-	w := newWorld()
+	return runStepsOn(newWorld(), steps)
+}
+
+// newConfiguredWorld builds the model from explicit configuration: initial modes (at most one of them normal).
+func newConfiguredWorld(normal []bool) *world {
+	w := &world{clk: &fakeClock{Clock: clock.Real()}}
+	var modes []*traits.ElectricMode
+	for i, n := range normal {
+		id := fmt.Sprintf("init-%d", i+1)
+		modes = append(modes, &traits.ElectricMode{Id: id, Title: "configured", Normal: n})
+		w.ids = append(w.ids, id)
+	}
+	w.m = electricpb.NewModel(electricpb.WithClock(w.clk), electricpb.WithInitialMode(modes...))
+	w.srv = electricpb.NewModelServer(w.m)
+	return w
+}
+
+func runStepsOn(w *world, steps []step) (nt bool, hist []string, err error) {
 	for _, s := range steps {
 		if s.Mode > 4 {
 			s.Mode = 4
@@ -301,6 +331,7 @@ func drawStep(t *rapid.T) step {
 		Masked: rapid.Bool().Draw(t, "masked"),
 		Allow:  rapid.Bool().Draw(t, "allow"),
 		Via:    rapid.IntRange(0, 1).Draw(t, "via"),
+		Extra:  rapid.IntRange(0, 3).Draw(t, "extra") == 0,
 	}
 }
 
@@ -321,6 +352,36 @@ func TestElectricSequences(t *testing.T) {
 			key = strings.Join(hist, ";")
 		}
 		lib.Ev.Case(key, func() any { return hist })
+	})
+}
+
+// TestElectricConfigured: the same random sequences on a model constructed with initial modes.
+func TestElectricConfigured(t *testing.T) {
+	rapid.Check(t, func(t *rapid.T) {
+		k := rapid.IntRange(1, 3).Draw(t, "initialModes")
+		normal := make([]bool, k)
+		if n := rapid.IntRange(-1, k-1).Draw(t, "normalOne"); n >= 0 {
+			normal[n] = true
+		}
+		w := newConfiguredWorld(normal)
+		if got := len(w.m.Modes()); got != k {
+			t.Fatalf("model configured with %d initial modes lists %d", k, got)
+		}
+		n := rapid.IntRange(1, 20).Draw(t, "n")
+		steps := make([]step, n)
+		for i := range steps {
+			steps[i] = drawStep(t)
+		}
+		nt, hist, err := runStepsOn(w, steps)
+		if err != nil {
+			t.Fatalf("%v\ninitial modes (normal flags): %v\nhistory:\n  %s", err, normal, strings.Join(hist, "\n  "))
+		}
+		key := ""
+		if nt {
+			key = fmt.Sprintf("configured%v;%s", normal, strings.Join(hist, ";"))
+		}
+		lib.Ev.Class("configured model")
+		lib.Ev.Case(key, func() any { return map[string]any{"initial modes (normal flags)": normal, "history": hist} })
 	})
 }
 
